@@ -113,6 +113,10 @@ class ContLaw:
     def quantile(self, u):
         return float(self.frozen.ppf(u))
 
+    def quantile_upper(self, u):
+        """the (1-u)-quantile, computed through the inverse survival function (exact also for tiny u)"""
+        return float(self.frozen.isf(u))
+
     def cdf(self, x):
         return float(self.frozen.cdf(x))
 
